@@ -1109,10 +1109,10 @@ func callBuiltin(caller *frame, callpos token.Pos, fn *ssa.Builtin, args []value
 	panic("unknown built-in: " + fn.Name())
 }
 
-func rangeIter(x value, t types.Type) iter {
+func rangeIter(fr *frame, x value, t types.Type) iter {
 	switch x := x.(type) {
 	case *omap:
-		return newMapIter(x)
+		return newMapIter(fr, x)
 	case string:
 		return &stringIter{Reader: strings.NewReader(x)}
 	}
